@@ -19,6 +19,7 @@ from core import proto, oracle
 from .common import case, guarded, weak_orders
 
 ID = "C01"
+COVER_FILES = ['instances/preflibinstance/ordinal.py', 'instances/preflibinstance/instance.py']
 RULE = ("exhaustive: every weak order (ordered partition) of every non-empty subset of {1..m}, m <= 3 (quick) / 4 "
         "(thorough), as a one-ballot instance x the four data types, and every ordered pair of distinct such orders "
         "(m <= 3) with equal multiplicities (stability of the sort); random: up to 12 alternatives, ids up to 10^18, "
